@@ -1111,6 +1111,14 @@ func (c *e5Ctx) transfer(w *world, ins ssa.Instruction) bool {
 				idx = i + 1
 			}
 			c.use(w, a, ins, "passing to "+CalleeName(cc))
+			// the socket-level SendMsg rewrites the message (it installs the routing header in
+			// place): a caller that still holds a further reference shares that header with the
+			// message in flight, and the next use overwrites it
+			if cc.IsInvoke() && cc.Method.Name() == "SendMsg" && apiSendIface(cc.Value.Type()) {
+				if st := w.o[o]; st.k > 0 && st.st == stLive {
+					c.issue("send-while-shared", ins, c.describe(o), "the message is handed to "+CalleeName(cc)+" while the sender still holds another reference to it (Clone without a matching release before the send): the protocol writes its routing header into the very message the sender keeps and hands over again, so a message still in flight gets the next one's header")
+				}
+			}
 			switch c.argContract(ins, cc, idx) {
 			case "consume":
 				c.release(w, o, ins, stConsumed, "hand-off to "+CalleeName(cc))
@@ -1139,6 +1147,18 @@ func (c *e5Ctx) transfer(w *world, ins ssa.Instruction) bool {
 					w.o[o] = s
 				}
 			}
+		}
+	}
+	return false
+}
+
+// apiSendIface: the application-facing send interfaces (Socket, Context, protocol.Protocol /
+// ProtocolBase / ProtocolContext), as opposed to a pipe, whose SendMsg does not rewrite.
+func apiSendIface(t types.Type) bool {
+	n := typeShort(t)
+	for _, suf := range []string{"Socket", "Context", "Protocol", "ProtocolBase", "ProtocolContext"} {
+		if strings.HasSuffix(n, "."+suf) || n == suf {
+			return true
 		}
 	}
 	return false
